@@ -42,6 +42,10 @@ class Driver:
 
 def get_drivers(repo):
     out = []
+    try:
+        fields_tuple_layout(repo)
+    except Undecided:
+        pass
     pk = repo.cls('Packet')
     for kind, name in (('unpack', 'unpack_impl'), ('pack', 'pack_impl')):
         fi = pk.methods.get(name)
@@ -118,7 +122,7 @@ def check_handlers(ctx, rule, d):
                 if canon(args['offset']) != cursor:
                     ok = ctx.violation(rule, w, st, 'stack entry offset is %s, expected the driver cursor %s' % (canon(args['offset']), cursor), h.lineno)
                 if not (isinstance(args['field_name'], ast.Name) and args['field_name'].id == field_name_var(d)):
-                    ok = ctx.violation(rule, w, st, 'stack entry field is %s, expected the current field name variable %s' % (canon(args['field_name']), field_name_var(d)), h.lineno)
+                    ok = ctx.violation(rule, w, st, 'stack entry field is %s, expected the variable bound to the current field name (%s)' % (canon(args['field_name']), field_name_var(d)), h.lineno)
                 if not clsname_ok(args['packet_class_name']):
                     ok = ctx.violation(rule, w, st, 'stack entry class is %s, expected the packet class name' % canon(args['packet_class_name']), h.lineno)
             # re-raise after the call
@@ -168,8 +172,21 @@ def args_of(call, names):
     return out if all(n in out for n in names) else None
 
 
+_LAYOUT = {}
+
+
 def field_name_var(d):
-    """the variable that holds the current field's name in the driver"""
+    """the variable that holds the current field's name in the driver: the loop
+    target (generic) / tuple target of the loop block (template) bound to the
+    name slot of the get_fields() tuples"""
+    if d.origin == 'template':
+        return handler_name_var(d)
+    if d.origin == 'generic' and d.try_node is not None:
+        for s in d.try_node.body:
+            if isinstance(s, ast.For) and 'get_fields' in unparse(s.iter) and isinstance(s.target, ast.Tuple):
+                pos = _LAYOUT.get('name', 0)
+                if len(s.target.elts) > pos and isinstance(s.target.elts[pos], ast.Name):
+                    return s.target.elts[pos].id
     return 'name'
 
 
@@ -235,10 +252,19 @@ def generic_loop_shape(ctx, rule, d):
         ctx.undecided(rule, w, st, 'loop body is not a single call of the per-field method', lp.lineno)
         return None
     s, c = calls[0]
-    return dict(loop=lp, stmt=s, call=c, names=names, callee_pos=names.index(c.func.id), name_pos=names.index('name') if 'name' in names else None)
+    nv = handler_name_var(d)
+    return dict(loop=lp, stmt=s, call=c, names=names, callee_pos=names.index(c.func.id), name_pos=names.index(nv) if nv in names else None)
+
+
+def template_name_var(repo, kind):
+    for d in get_drivers(repo):
+        if d.origin == 'template' and d.kind == kind:
+            return handler_name_var(d)
+    return 'name'
 
 
 def template_loop_shape(ctx, rule, repo, kind):
+    nv = template_name_var(repo, kind)
     """the per-field loop block template: ``name, _, pack, _ = fields[i]`` + call"""
     want = 'generate_code_for_loop_%s' % kind
     for t in repo.templates():
@@ -251,11 +277,22 @@ def template_loop_shape(ctx, rule, repo, kind):
                 c = s.value if isinstance(s, (ast.Expr, ast.Assign)) else None
                 if len(names) == 4 and isinstance(c, ast.Call) and isinstance(c.func, ast.Name) and c.func.id in names:
                     return dict(template=t, assign=body[0], stmt=s, call=c, names=names,
-                                callee_pos=names.index(c.func.id), name_pos=names.index('name') if 'name' in names else None)
+                                callee_pos=names.index(c.func.id), name_pos=names.index(nv) if nv in names else None)
             ctx.undecided(rule, t.func, 'loop block template at line %d' % t.lineno, 'shape not recognised: %s' % t.holed.strip()[:120], t.lineno)
             return None
     ctx.undecided(rule, ('bisturi/codegen.py', want), 'loop block template', 'template not found')
     return None
+
+
+def handler_name_var(d):
+    """the variable the handlers report as the failing field's name"""
+    if d.try_node is None:
+        return 'name'
+    for h in d.try_node.handlers:
+        for n in ast.walk(h):
+            if isinstance(n, ast.Call) and call_name(n) == 'PacketError' and len(n.args) >= 2 and isinstance(n.args[1], ast.Name):
+                return n.args[1].id
+    return 'name'
 
 
 def fields_tuple_layout(repo):
@@ -278,6 +315,7 @@ def fields_tuple_layout(repo):
                     elif isinstance(e, ast.Attribute) and isinstance(e.value, ast.Name) and e.value.id == fld:
                         roles[e.attr] = i
                 if set(roles) == {'name', 'field', 'pack', 'unpack'}:
+                    _LAYOUT.update(roles)
                     return roles
     raise Undecided('cannot read the (name, field, pack, unpack) tuple layout from lookup_pack_unpack_methods')
 
@@ -492,7 +530,8 @@ def check_cursor_discipline(ctx, rule, d, repo):
             idx_dec = [i for i, s in enumerate(body) if 'StructUnpack' in unparse(s) or 'raw[' in unparse(s)]
             idx_off = [i for i, s in enumerate(body) if isinstance(s, (ast.Assign, ast.AugAssign)) and any(
                 isinstance(x, ast.Name) and x.id == 'offset' for x in (s.targets if isinstance(s, ast.Assign) else [s.target]))]
-            idx_name = [i for i, s in enumerate(body) if isinstance(s, ast.Assign) and isinstance(s.targets[0], ast.Name) and s.targets[0].id == 'name']
+            nv = handler_name_var(d)
+            idx_name = [i for i, s in enumerate(body) if isinstance(s, ast.Assign) and isinstance(s.targets[0], ast.Name) and s.targets[0].id == nv]
             if not idx_dec:
                 continue
             st = 'struct unpack block: %s' % '; '.join(stmt_text(s) for s in body)
